@@ -63,6 +63,7 @@ def contracts():
              ensures=['type(result) is TypeMatchError', 'len(result.args) == 3', 'result.args[1] is self.args[1]', 'result.args[2] is self.args[2]'])]))
     from contracts import X_ctor
     cs += common.shared(X_ctor, ['core.GlomError._set_wrapped'])
+    cs += common.shared(X_ctor, ['core.UnregisteredTarget.__init__', 'matching.TypeMatchError.__init__'])
     # the Glommer entry point forwards default / skip_exc unchanged; messages of glom's own errors are rendered eagerly by some callers
     from contracts import C13, C08, C03, C05
     cs += common.shared(C13, ['core.Glommer.glom'])
